@@ -148,7 +148,7 @@ func runC18(c *eng.Ctx) {
 		// the append that builds the candidate list
 		apps := c.Some(f, eng.CallTo("builtin:append"), "append(liveReplicaNodes.Replicas, replica)")
 		var look *ssa.Lookup
-		for _, b := range f.Blocks {
+		for _, b := range eng.BlocksT(f) {
 			for _, in := range b.Instrs {
 				if l, ok := in.(*ssa.Lookup); ok && l.CommaOk && p.Desc(l.X) == "liveNodes" {
 					look = l
@@ -204,7 +204,7 @@ func runC18(c *eng.Ctx) {
 			c.Check(len(eq) > 0, fmt.Sprintf("leader-match[%d]", i), s.Instr, lo, "LeadersOnNode selects exactly the shards whose leader is that node", "")
 		}
 		rngAll := false
-		for _, b := range lo.Blocks {
+		for _, b := range eng.BlocksT(lo) {
 			for _, in := range b.Instrs {
 				if r, ok := in.(*ssa.Range); ok && eng.DependsOnField(r.X, "models.StorageState.ShardStates") {
 					rngAll = true
